@@ -261,7 +261,7 @@ def gen_ops(rng, root, env, n, profile="mixed", bad=0.3):
                 op["fmt"] = rng.choice(FORMATS)
                 if rng.random() < 0.35:
                     op["corrupt"] = rng.choice(["truncate:%d" % rng.randrange(1, 8), "wrongroot", "badutf8", "empty",
-                                                "garbage", "seqroot", "seqroot", "multidoc", "scalarroot"])
+                                                "garbage", "seqroot", "seqroot", "multidoc", "scalarroot", "pairsroot", "pairsroot"])
             ops.append(op)
         elif kind == "cmdline":
             argv = []
@@ -945,7 +945,7 @@ class Driver:
             return None
         corrupt = op.get("corrupt")
         parse_fails = False
-        if corrupt in ("seqroot", "scalarroot", "multidoc"):
+        if corrupt in ("seqroot", "scalarroot", "multidoc", "pairsroot"):
             # wrong roots that begin like a good document: a sequence whose first element is the valid map, a YAML
             # stream whose first document is the valid map, a scalar
             try:
@@ -956,7 +956,12 @@ class Driver:
                 elif fmt not in ("json", "yaml", "pickle"):
                     return None  # XML always has a map at its root, BSON cannot encode another one
                 else:
-                    doc = cc.ConfigFormat.get(fmt).dumps(self.cfg, [tree, 7] if corrupt == "seqroot" else 7)
+                    if corrupt == "pairsroot":
+                        # a sequence of [key, value] pairs - dict() would make a map of it - that ends in something else
+                        wrong = [[k, v] for k, v in tree.items()] + ["zq", 7][:1 + len(tree) % 2]
+                    else:
+                        wrong = [tree, 7] if corrupt == "seqroot" else 7
+                    doc = cc.ConfigFormat.get(fmt).dumps(self.cfg, wrong)
             except Exception:
                 return None
             parse_fails = True
